@@ -554,4 +554,26 @@ def save_completeness(ctx: Ctx, py: PyProgram) -> None:
             ctx.violation("C16.7/flat-image", key_of(rel, q, "slice lengths differ"), f"blob slice and payload slice have different lengths: {sorted(show(f) for f in hi_minus_start)} vs {sorted(show(f) for f in klen)}", f"{rel}:{cp.lineno}")
     except NotLinear as e:
         raise AnalysisError(f"{q}: slice bounds left the linear fragment: {e}")
+    # (c) every backing store a CPU write handler mutates is part of what save_snapshot exports
+    memmod = py.module("pce500/memory.py")
+    init = py.func("pce500/memory.py", "PCE500Memory.__init__")
+    closures = {f.name: f for f in _ast.walk(init) if isinstance(f, _ast.FunctionDef) and f is not init}
+    stores: dict[str, int] = {}
+    for c in _ast.walk(init):
+        if isinstance(c, _ast.Call) and unparse(c.func).endswith("MemoryOverlay"):
+            for kw in c.keywords:
+                if kw.arg == "write_handler" and isinstance(kw.value, _ast.Name) and kw.value.id in closures:
+                    for a in _ast.walk(closures[kw.value.id]):
+                        if isinstance(a, _ast.Assign) and isinstance(a.targets[0], _ast.Subscript) and (attr_chain(a.targets[0].value) or "").startswith("self."):
+                            stores[attr_chain(a.targets[0].value)] = a.lineno
+    if not stores:
+        raise AnalysisError("PCE500Memory.__init__: no handler-backed store found (memory card window expected)")
+    exporters = [py.func("pce500/memory.py", "PCE500Memory.export_flat_memory"), py.func("pce500/memory.py", "PCE500Memory.get_internal_memory_bytes"), py.func(EMU, "PCE500Emulator.save_snapshot")]
+    exported = " ".join(unparse(f) for f in exporters)
+    for st, ln in sorted(stores.items()):
+        n += 1
+        nm = st.split(".", 1)[1]
+        if nm not in exported:
+            ctx.violation("C16.7/storage-cover", key_of("pce500/memory.py", "PCE500Memory", f"{st} not in the snapshot"),
+                          f"{st} is written by a CPU store handler but neither export_flat_memory nor save_snapshot reads it: its contents are lost by save + load", f"pce500/memory.py:{ln}")
     ctx.instance("C16.7/save-completeness", "per-entry save loops store every entry; flattened image copies overlay payloads through the last window byte", n, 2)
